@@ -27,6 +27,11 @@ type Config struct {
 	ErrDelayMaxMs int `json:"err_delay_max_ms"`
 	RedeliverPm   int `json:"redeliver_pm"` // chance per delivered request to be re-delivered much later
 
+	// FifoIS: InstallSnapshot requests to one node are delivered and handled in the order
+	// they were sent, never duplicated or re-delivered (keeps known finding F3, which needs
+	// reordered chunks of different snapshots, out of profiles that are not about reordering).
+	FifoIS bool `json:"fifo_is"`
+
 	// Scheduler.
 	StickyPm int `json:"sticky_pm"`
 
@@ -70,6 +75,9 @@ type Config struct {
 	DelayBoundMs int `json:"delay_bound_ms"`
 	// C04: decode durable images at every ack.
 	ImageAtAck int `json:"image_at_ack"` // 0 never, 1 sampled, 2 always
+
+	// Thorough selects the deeper variant of a profile (disk engine: all byte offsets).
+	Thorough bool `json:"thorough"`
 
 	MaxSteps uint64 `json:"max_steps"`
 	Trace    bool   `json:"trace"`
